@@ -39,6 +39,11 @@ PAYLOADS = {
     # unbroken tokens longer than the docstring wrap width: the writer must not cut an escape sequence in two
     "long_token_x": "p" * 61 + "\\x41" * 30, "long_token_N": "q" * 70 + "\\N{DASH}" * 12, "long_token_nul": "r" * 83 + "\x00" * 12,
     "long_token_backslashes": "s" * 79 + "\\" * 40, "long_token_quotes": "t" * 84 + '"""' * 10,
+    # text that looks like code: generated files are post-processed line by line in places (Protocol / mock derivation),
+    # so a docstring line must never be taken for a statement
+    "code_async_def": "async def injected(self, x: int = 1) -> None:", "code_def": "def injected(self):", "code_overload": "@overload",
+    "code_class": "class Injected:", "code_return": "    return 1", "code_import": "from os import system", "code_decorator_def": "@staticmethod\ndef injected():\n    pass",
+    "code_triple_then_def": '"""\nasync def injected(self):\n    """', "code_wrapped_def": "w" * 70 + " async def injected(self) -> None: pass " + "z" * 30,
 }
 
 # character classes an escaping routine may treat by separate rules: every unordered pair is placed in one string, because
